@@ -161,7 +161,7 @@ func genC14Live(t *rapid.T) *C14LivePlan {
 		NTx: rapid.IntRange(1, 3).Draw(t, "ntx"), GapMs: rapid.SampledFrom([]int{100, 600, 1500, 2400}).Draw(t, "gap")}
 }
 
-const c14LiveRule = "live: the real Node.Run against a scripted peer on a loopback socket; after 0, 1 or 2 losses of the trusted connection (close or reset; Run restarts it) the peer announces 1-3 transactions it never delivers, announces them again 0.1-2.4 s later and pings every 40 ms; oracle: every one of them is asked for a second time (waited for up to 23 s; a verdict counts when the same plan fails twice); non-trivial = at least one reconnect happened before the announcements; distinct by plan hash"
+const c14LiveRule = "live: the real Node.Run against a scripted peer on a loopback socket; after 0, 1 or 2 losses of the trusted connection (close or reset; Run restarts it) the peer announces 1-3 transactions it never delivers, announces them again 0.1-2.4 s later and pings every 40 ms; oracle: every one of them is asked for a second time - by the same peer, which is the one that announced it again, as the code and the step-mode model read 'a peer that also announced it' - (waited for up to 23 s; a verdict counts when the same plan fails twice); non-trivial = at least one reconnect happened before the announcements; distinct by plan hash"
 
 func TestC14Live(t *testing.T) {
 	rep := verifkit.NewReport("C14", "TestC14Live", c14LiveRule)
